@@ -305,6 +305,50 @@ func (h *hookStore) RemoveMessage(mb, id string) error {
 	return err
 }
 
+// A store that offers a batched removal (RemoveMessages(mailbox, ids), not part of storage.Store as it is) is handed
+// to the scanner with that method still visible: the call is one removal step — other clients' operations scheduled
+// before the scanner's n-th removal run first — and what it removed is read off the store afterwards.
+type batchRemover interface {
+	RemoveMessages(mailbox string, ids []string) (int, error)
+}
+
+type hookStoreBatch struct {
+	*hookStore
+	b batchRemover
+}
+
+func (h *hookStoreBatch) RemoveMessages(mb string, ids []string) (int, error) {
+	d := h.d
+	d.attempts++
+	pos := "r" + strconv.Itoa(d.attempts)
+	d.fire(func(in *inj) bool { return in.pos == pos && in.op[0] != "padd" }, pos)
+	var there []string
+	for _, id := range ids {
+		if m, err := d.inner.GetMessage(mb, id); err == nil && m != nil {
+			there = append(there, id)
+		}
+	}
+	n, err := h.b.RemoveMessages(mb, ids)
+	for _, id := range there {
+		if m, err := d.inner.GetMessage(mb, id); err != nil || m == nil {
+			k := "?"
+			if v, ok := d.rev[mb][id]; ok {
+				k = strconv.Itoa(v)
+			}
+			d.removed = append(d.removed, vh.HS(mb)+"."+k)
+		}
+	}
+	return n, err
+}
+
+func scannerStore(st storage.Store, d *drv) storage.Store {
+	hs := &hookStore{Store: st, d: d}
+	if b, ok := st.(batchRemover); ok {
+		return &hookStoreBatch{hookStore: hs, b: b}
+	}
+	return hs
+}
+
 // PurgeMessages is not called by the scanner as it is; if a scan ever does, the call is a removal step
 // like RemoveMessage: other clients' operations scheduled before the scanner's n-th removal run first.
 func (h *hookStore) PurgeMessages(mb string) error {
@@ -498,7 +542,7 @@ func runScan(in []string) []string {
 	defer cancel()
 	d.cancel = cancel
 	rs := storage.NewRetentionScanner(config.Storage{RetentionPeriod: time.Duration(period) * time.Second, RetentionSleep: sleep},
-		&hookStore{Store: st, d: d})
+		scannerStore(st, d))
 	// file store: operations forced between the directory reads of the walk
 	d.isMem = in[0] == "mem"
 	verifhook.Set(func(site, arg string) {
@@ -594,7 +638,7 @@ func runSlow(in []string) []string {
 		close(gr.release)
 		return []string{"DELIVERY-NEVER-READ"}
 	}
-	rs := storage.NewRetentionScanner(config.Storage{RetentionPeriod: time.Duration(period) * time.Second}, &hookStore{Store: st, d: d})
+	rs := storage.NewRetentionScanner(config.Storage{RetentionPeriod: time.Duration(period) * time.Second}, scannerStore(st, d))
 	scanned := make(chan error, 1)
 	go func() { scanned <- rs.DoScan(context.Background()) }()
 	res := "ok"
